@@ -49,7 +49,7 @@ def lookahead(cfg, b):
             emitted += e.type._int_size
         conds.append(p <= emitted + 1)
     checks = [("at-most-one-byte-of-lookahead-at-every-event", all(conds)),
-              ("never-pulls-beyond-the-input", src.n <= len(b) and src.stopped <= 1)]
+              ("never-pulls-beyond-the-input", src.n <= len(b))]
     # prefix stability at every cut
     widths = [e.type._int_size if isinstance(e, MarshalEvent) and e.value is not ... else 0 for e in evs]
     pc = []
